@@ -105,9 +105,15 @@ def _run_variant(args):
         try:
             rep = run_check(prop, tmp)
         except core.AnalysisError as e:
-            if variant["name"].startswith("refactor-"):
+            part = getattr(e, "partial", None)
+            pv = [o for o in (part.obs if part is not None else []) if o.status == core.VIOLATED]
+            if pv:
+                # violations found before the analysis gave up stand (run.py exits 1 on them)
+                rep = part
+            elif variant["name"].startswith("refactor-"):
                 return (variant["name"], "ok", "no verdict: analysis error: {}".format(e)[:200])
-            return (variant["name"], "error", "analysis error: {}".format(e))
+            else:
+                return (variant["name"], "error", "analysis error: {}".format(e))
         except Exception as e:
             if variant["name"].startswith("refactor-"):
                 return (variant["name"], "ok", "no verdict: {}: {}".format(type(e).__name__, e)[:200])
